@@ -18,7 +18,9 @@ hybrid_rush_larsen(stiff_states=S, delta 1e-8 or 1e-3): S = empty (also stiff_st
 subsets, and each of them with foreign names added (an undeclared name, a parameter name, an intermediate name, 't', a d<x>_dt name).
 One case = one (model, back end [numpy; C every 2nd model], S, point, dt in {0.01, 1, -0.5}): slot X of hybrid_rush_larsen must equal
 slot X of the module's own generalized_rush_larsen if X in S, of explicit_euler otherwise (rtol 1e-12); adding foreign names must not
-change the generated step values.  Any exception generating the hybrid scheme although Euler and GRL generate is a failure.
+change the generated step values.  Any exception generating the hybrid scheme although Euler and GRL generate is a failure.  For one
+proper stiff subset per model the hybrid module is ALSO generated with remove_unused=True and its hybrid step compared BY NAME (each module's own
+state_index) with the plain module's (C07:<be>:hybrid-differs:remove_unused).
 Non-trivial: 0 < |S intersect states| < n_states or foreign names present, and GRL != Euler at the point; distinct by sha1(text, back
 end, S, delta, point, dt)."""
 
@@ -29,7 +31,7 @@ def cases(tier, seed, focus):
     for i in range(n):
         k = seed * 100003 + i
         yield {"mseed": k, "opts": {"own": 0.8, "own_forms": forms[i % len(forms):] + forms[: i % len(forms)], "n_states": [1, 5], "n_params": [1, 4], "n_inter": [0, 5],
-                                    "force": list(mg.feature_cycle(k, 1))}, "npts": 2, "backends": ["numpy"] + (["c"] if i % 2 == 0 else []), "tags": ["C07"]}
+                                    "force": list(mg.feature_cycle(k, 1)), "indep": 0.25, "deriv_ref": 0.15}, "npts": 2, "backends": ["numpy"] + (["c"] if i % 2 == 0 else []), "tags": ["C07"]}
 
 
 def stiff_sets(ref, rng):
@@ -86,6 +88,10 @@ def check(case):
             except be.Stage as e:
                 cm.note(res, f"skipped:{bk}:euler/grl-{e.stage}-fails(C01/C02/C06)")
                 break
+            if not (shr and res["failures"]) and (c.get("remove_unused") or "stiff_sets" not in c):
+                check_remove_unused(ode, bk, delta, sets, ref, c, dts, text, res, add)
+            if c.get("remove_unused"):
+                continue
             for S in sets:
                 inp0 = {"ode": text, "stiff_sets": [S], "deltas": [delta]}
                 try:
@@ -117,7 +123,7 @@ def check(case):
                                 add(f"call-raises:{cm.exc_name(e.exc)}", "hybrid_rush_larsen raises although Euler and GRL run", inp, "values", cm.exc_name(e.exc), str(e))
                                 continue
                             want = {k: (rl[k] if k in inS else eu[k]) for k in eu}
-                            bad = {k: hy[k] for k in want if not cm.close(hy[k], want[k], 1e-12, 1e-300)}
+                            bad = {k: hy[k] for k in want if not cm.vclose(hy[k], want[k], 0.0, 1e-12)}
                             if bad:
                                 kinds = set()
                                 for k in bad:
@@ -142,6 +148,48 @@ def check(case):
             if shr and res["failures"]:
                 break
     return res
+
+
+def check_remove_unused(ode, bk, delta, sets, ref, c, dts, text, res, add):
+    """hybrid step of the module generated with remove_unused=True against the plain module, by name"""
+    proper = [S for S in sets if S and 0 < len(set(S) & set(ref.states)) < len(ref.states)] or [S for S in sets if S]
+    if not proper:
+        return
+    S = proper[0]
+    schemes = ["explicit_euler", "generalized_rush_larsen", "hybrid_rush_larsen"]
+    try:
+        mp = be.build(ode, bk, schemes, delta=delta, stiff_states=S)
+    except be.Stage:
+        return
+    with mp:
+        try:
+            mr = be.build(ode, bk, schemes, delta=delta, stiff_states=S, remove_unused=True)
+        except be.Stage as e:
+            cm.note(res, f"skipped:{bk}:remove_unused-module-{e.stage}-fails(C12)")
+            return
+        with mr:
+            for pt in c["points"]:
+                pt = cm.restrict_point(pt, ref)
+                for dt in dts:
+                    try:
+                        hp = mp.scheme("hybrid_rush_larsen", pt, dt)
+                    except be.Stage:
+                        continue
+                    if not all(math.isfinite(v) for v in hp.values()):
+                        continue
+                    res["evals"] += 1
+                    res["nontrivial"].append(cm.sha([text, bk, S, delta, pt, dt, "remove_unused"]))
+                    inp = {"ode": text, "stiff_sets": [S], "deltas": [delta], "points": [pt], "dts": [dt], "remove_unused": True}
+                    try:
+                        hr = mr.scheme("hybrid_rush_larsen", pt, dt)
+                    except be.Stage as e:
+                        add(f"call-raises:{cm.exc_name(e.exc)}:remove_unused", "hybrid_rush_larsen of the remove_unused module raises", inp, "values", cm.exc_name(e.exc), str(e))
+                        return
+                    bad = {k: hr.get(k) for k in hp if k not in hr or not cm.vclose(hr[k], hp[k], 0.0, 1e-12)}
+                    if bad:
+                        add("hybrid-differs:remove_unused", f"hybrid_rush_larsen(stiff_states={S}) of the module generated with remove_unused=True differs by name from the plain module for {sorted(bad)}", inp,
+                            {k: hp[k] for k in bad}, bad, f"state table {mr.state}")
+                        return
 
 
 run, replay = cm.make_api(globals())
